@@ -32,6 +32,7 @@ import (
 	gcmpb "github.com/tink-crypto/tink-go/v2/proto/aes_gcm_go_proto"
 	gcmsivpb "github.com/tink-crypto/tink-go/v2/proto/aes_gcm_siv_go_proto"
 	chachapb "github.com/tink-crypto/tink-go/v2/proto/chacha20_poly1305_go_proto"
+	compositepb "github.com/tink-crypto/tink-go/v2/proto/composite_ml_dsa_go_proto"
 	tinkpb "github.com/tink-crypto/tink-go/v2/proto/tink_go_proto"
 	xaesgcmpb "github.com/tink-crypto/tink-go/v2/proto/x_aes_gcm_go_proto"
 	xchachapb "github.com/tink-crypto/tink-go/v2/proto/xchacha20_poly1305_go_proto"
@@ -145,7 +146,7 @@ var (
 	symmetricClasses = []keys.Class{keys.AEAD, keys.DAEAD, keys.MAC, keys.PRF, keys.Streaming, keys.JWTMAC, keys.Deriver}
 	// kinds of keyset entries
 	nonSecretKinds = []string{"real-public", "legacy-public", "legacy-remote"}
-	secretKinds    = []string{"real-symmetric", "real-private", "legacy-symmetric", "legacy-private", "legacy-unknown", "legacy-unknown-enum-value", "mislabelled"}
+	secretKinds    = []string{"real-symmetric", "real-private", "legacy-symmetric", "legacy-private", "legacy-unknown", "legacy-unknown-enum-value", "mislabelled", "nested-private-in-public"}
 	allKinds       = append(append([]string{}, nonSecretKinds...), secretKinds...)
 	legacyPrefixes = []tinkpb.OutputPrefixType{tinkpb.OutputPrefixType_TINK, tinkpb.OutputPrefixType_LEGACY, tinkpb.OutputPrefixType_RAW, tinkpb.OutputPrefixType_CRUNCHY}
 	protoStatuses  = []tinkpb.KeyStatusType{tinkpb.KeyStatusType_ENABLED, tinkpb.KeyStatusType_ENABLED, tinkpb.KeyStatusType_DISABLED, tinkpb.KeyStatusType_DESTROYED}
@@ -222,6 +223,31 @@ func drawGuardEntry(rt *rapid.T, label, kind string) guardEntry {
 		was := kd.GetKeyMaterialType()
 		kd.KeyMaterialType = rapid.SampledFrom([]tinkpb.KeyData_KeyMaterialType{tinkpb.KeyData_ASYMMETRIC_PUBLIC, tinkpb.KeyData_REMOTE}).Draw(rt, label+"_label")
 		e.desc += fmt.Sprintf(" [material type %v relabelled as %v]", was, kd.GetKeyMaterialType())
+		e.mislabeled = true
+	case "nested-private-in-public":
+		// a composite ML-DSA PUBLIC key (outer material type ASYMMETRIC_PUBLIC) whose nested
+		// classical_public_key is the KeyData of the classical PRIVATE key: private key material one
+		// level down, where a check of the outer label does not look (found by the defect hunt: F28)
+		info := keys.DrawType(rt, label+"_key", "CompositeMlDsa")
+		privKD, _, ok1 := serializeToEntry(rt, info.Key)
+		pubKD, pubPrefix, ok2 := serializeToEntry(rt, info.Public)
+		if !ok1 || !ok2 {
+			return drawGuardEntry(rt, label+"_sub", "legacy-private")
+		}
+		priv, pub := &compositepb.CompositeMlDsaPrivateKey{}, &compositepb.CompositeMlDsaPublicKey{}
+		if err := proto.Unmarshal(privKD.GetValue(), priv); err != nil {
+			rt.Fatalf("harness: %v", err)
+		}
+		if err := proto.Unmarshal(pubKD.GetValue(), pub); err != nil {
+			rt.Fatalf("harness: %v", err)
+		}
+		pub.ClassicalPublicKey = priv.GetClassicalPrivateKey()
+		v, err := proto.Marshal(pub)
+		if err != nil {
+			rt.Fatalf("harness: %v", err)
+		}
+		kd, prefix = &tinkpb.KeyData{TypeUrl: pubKD.GetTypeUrl(), Value: v, KeyMaterialType: tinkpb.KeyData_ASYMMETRIC_PUBLIC}, pubPrefix
+		e.desc, e.typ = info.Desc+" [public key whose classical_public_key field holds the classical PRIVATE key data]", info.Type+"/nested-private"
 		e.mislabeled = true
 	case "legacy-public":
 		kd, prefix, e.desc = drawLegacy(rt, label, []string{legacykm.VerifierURL, legacykm.HybridPubURL}, 32, tinkpb.KeyData_ASYMMETRIC_PUBLIC)
